@@ -357,7 +357,47 @@ def k_two_queues(ctx, seed):
                             observed=[x.hex()[:30] for x in s_["got"]][:5], expected=[x.hex()[:30] for x in want][:5])
 
 
-KINDS = {"two_queues": k_two_queues, "objects": k_objects, "frag": k_frag, "garbage": k_garbage, "random": k_random}
+def k_ids_reuse(ctx, seed):
+    """The caller keeps ONE list of registered packet ids for the life of the process and edits it between calls (an id object
+    changed in place, an entry replaced, ids added / removed): every call parses with the ids registered at that moment."""
+    sp = _sp()
+    r = random.Random(f"idsreuse/{seed}")
+    case = {"k": "ids_reuse", "seed": seed}
+    ctx.case("ids_reuse", seed, sample=case)
+    ids13 = sorted({r.getrandbits(13) for _ in range(r.randrange(1, 4))})
+    ids = [sp.PacketId.from_raw(i) for i in ids13]
+    trail = []
+    for rnd in range(r.randrange(2, 6)):
+        if rnd:
+            op = r.choice(("attr", "attr", "replace", "append", "pop", "none"))
+            i = r.randrange(len(ids))
+            if op == "attr":
+                new = r.getrandbits(13)
+                ids[i].apid, ids[i].ptype, ids[i].sec_header_flag = new & 0x7FF, sp.PacketType(new >> 12), bool(new >> 11 & 1)
+            elif op == "replace":
+                ids[i] = sp.PacketId.from_raw(r.getrandbits(13))
+            elif op == "append":
+                ids.append(sp.PacketId.from_raw(r.getrandbits(13)))
+            elif op == "pop" and len(ids) > 1:
+                ids.pop(i)
+            trail.append(op)
+            ctx.table("ids_list_edits", op)
+        cur = sorted({x.raw() for x in ids})
+        pk = [make_packet(r, cur, r.choice((7, 9, 20, 40))) for _ in range(r.randrange(1, 5))]
+        stream = b"".join(pk)
+        q = collections.deque([bytearray(stream)])
+        ok, res = attempt(sp.parse_space_packets, q, ids)
+        ctx.ev("parser.registered_ids_are_read_at_every_call")
+        if not ok:
+            return ctx.fail("parser.registered_ids_are_read_at_every_call", "raised", exc_sig(res), dict(case, trail=trail), error=repr(res))
+        want, consumed = split_stream(stream, set(cur))
+        got = [bytes(x) for x in res]
+        if got != want:
+            return ctx.fail("parser.registered_ids_are_read_at_every_call", "packets_of_currently_registered_ids_not_returned", "after_" + (trail[-1] if trail else "first_call"), dict(case, trail=trail),
+                            observed=[x.hex()[:30] for x in got][:5], expected=[x.hex()[:30] for x in want][:5], ids=cur)
+
+
+KINDS = {"ids_reuse": k_ids_reuse, "two_queues": k_two_queues, "objects": k_objects, "frag": k_frag, "garbage": k_garbage, "random": k_random}
 
 
 def selftest(ctx):
@@ -412,6 +452,7 @@ def run(ctx):
         k_random(ctx, ctx.seed * 1_000_003 + ctx.shard[0] * 100_003 + j)
     for j in range(ctx.n(600, 60_000)):
         k_two_queues(ctx, ctx.seed * 1_000_003 + ctx.shard[0] * 100_003 + j)
+        k_ids_reuse(ctx, ctx.seed * 1_000_003 + ctx.shard[0] * 100_003 + j)
     for j in range(ctx.n(600, 60_000)):
         k_objects(ctx, ctx.seed * 1_000_003 + ctx.shard[0] * 100_003 + j, SCHEDULES[j % 4])
     for j in range(ctx.n(600, 60_000)):
